@@ -21,6 +21,139 @@ def sessions(ctx, n):
         committed = [(k, U.Val(sd(), vl())) for k in ks[:nc]]
         puts = [(k, U.Val(sd(), vl())) for k in ks[nc:]]
         out.append((committed, puts))
+    # large blocks (>= 64 KiB) as the LAST put of a session, in every tier: a writer that treats large values differently
+    # (preallocation, chunked writes) shows only here.  Last, so that few images carry the complete large record.
+    for big in ([(7, 70000), (-1, 66000)] if not ctx.thorough else [(7, 70000), (-1, 66000), (11, 65536), (-1, 131072)]):
+        out.append(([(b"a", U.Val(3, 5))], [(b"b", U.Val(9, 17)), (b"big", U.Val(*big))][rng.randrange(2):]))
+    return out
+
+
+class _RecStream:
+    """Proxy for the file object UKVFile works on: logs every effect on the file in program order --
+    ("w", position, bytes) and ("t", new_length) -- and delegates.  The buffered stream below hands these effects to
+    the OS in the same order (a truncate flushes first), so the crash images of the session are: the file after any
+    number of complete effects, plus any proper prefix of the bytes of the next write."""
+    def __init__(self, s, log):
+        object.__setattr__(self, "_s", s); object.__setattr__(self, "_log", log)
+
+    def write(self, b):
+        self._log.append(("w", self._s.tell(), bytes(b)))
+        return self._s.write(b)
+
+    def truncate(self, n=None):
+        n = self._s.tell() if n is None else n
+        self._log.append(("t", n))
+        return self._s.truncate(n)
+
+    def writelines(self, ls):
+        for l in ls:
+            self.write(l)
+
+    def __getattr__(self, a):
+        return getattr(self._s, a)
+
+    def __enter__(self):
+        return self
+
+    def __exit__(self, *a):
+        return self._s.__exit__(*a)
+
+
+class record_effects:
+    """While active, every binary file opened through pathlib.Path.open (what UKVFile uses) is wrapped in _RecStream."""
+    def __init__(self, log):
+        self.log = log
+
+    def __enter__(self):
+        import pathlib
+        self.orig = pathlib.Path.open
+        log, orig = self.log, self.orig
+
+        def opener(pth, mode="r", *a, **k):
+            f = orig(pth, mode, *a, **k)
+            return _RecStream(f, log) if "b" in mode else f
+        pathlib.Path.open = opener
+        return self
+
+    def __exit__(self, *a):
+        import pathlib
+        pathlib.Path.open = self.orig
+
+
+def apply_effect(img, e, j=None):
+    """file bytes after effect e (for a write: only its first j bytes when j is given)"""
+    if e[0] == "t":
+        return img[:e[1]] + bytes(max(0, e[1] - len(img)))
+    pos, b = e[1], e[2] if j is None else e[2][:j]
+    if not b:
+        return img
+    img = img + bytes(max(0, pos - len(img)))
+    return img[:pos] + b + img[pos + len(b):]
+
+
+def crash_images(base_img, log, dense):
+    """[(label, bytes)]: every crash image of the effect log (dense) or a selection (every byte near the start and the end
+    of each write, strided inside long writes)."""
+    out, img = [("start", base_img)], base_img
+    for i, e in enumerate(log):
+        if e[0] == "w":
+            L = len(e[2])
+            js = range(1, L) if dense or L <= 24 else sorted(set(list(range(1, 9)) + list(range(L - 3, L)) + list(range(9, L, 997 if L < 20000 else 9973))))
+            for j in js:
+                out.append((f"e{i}+{j}", apply_effect(img, e, j)))
+        img = apply_effect(img, e)
+        out.append((f"e{i}", img))
+    return out
+
+
+def append_only(base_len, log):
+    """the structural fact that makes `committed ++ prefix of the appended bytes` THE set of crash images (Props/C03.v:
+    crash_image): every effect is a write at the current end of the file"""
+    end = base_len
+    for e in log:
+        if e[0] != "w" or e[1] != end:
+            return False, e
+        end += len(e[2])
+    return True, None
+
+
+def judge_image(tmp, img, committed, puts):
+    """Reopen a crash image read-only with the real implementation and judge what it shows against what the session
+    MEANT to write (the images of drive()'s own oracle are judged against what the image itself contains)."""
+    from molli.storage.ukvfile import UKVFile
+    open(tmp, "wb").write(img)
+    out = []
+    try:
+        h = UKVFile(tmp, "r")
+    except Exception as e:
+        return [(f"C03:open:raised:{type(e).__name__}", f"reopening the crash image raised {type(e).__name__}: {str(e)[:80]}")]
+    try:
+        seen = {}
+        for k in list(h.keys()):
+            try:
+                seen[k] = h.get(k)
+            except Exception as e:
+                out.append(("C03:get:listed-key-unreadable", f"listed key {k[:8]!r} raised {type(e).__name__}"))
+    finally:
+        h.close()
+    for k, v in committed:
+        if seen.get(k) != v.b:
+            out.append(("C03:committed-record-damaged", f"record {k[:8]!r}, complete before the session, is missing or altered"))
+    want = {k: v.b for k, v in puts}
+    present = []
+    for i, (k, v) in enumerate(puts):
+        if k in seen:
+            present.append(i)
+            if seen[k] != v.b:
+                kind = "zero-padded" if len(seen[k]) == len(v.b) and seen[k].rstrip(b"\0") != v.b.rstrip(b"\0") or seen[k].endswith(b"\0") else "truncated/altered"
+                out.append(("C03:torn-record-visible", f"record {k[:8]!r} of the interrupted session is shown with a {kind} value "
+                            f"({len(seen[k])} bytes shown, {len(v.b)} bytes were being written)"))
+    if present != list(range(len(present))):
+        out.append(("C03:session-records-not-a-prefix", f"records {present} of the interrupted session are shown but an earlier one is not"))
+    ck = {k for k, _ in committed}
+    for k in seen:
+        if k not in want and k not in ck:
+            out.append(("C03:bogus-key", f"the reopened image lists {k[:12]!r}, which was never put (a partial key or leftover bytes parsed as a block)"))
     return out
 
 
@@ -45,8 +178,10 @@ def probe_ops(committed, puts, reuse=False):
 
 def run(ctx, rep):
     from molli.storage.ukvfile import UKVFile
-    rep.rule = ("crash images: committed records followed by every byte-offset prefix of a session's write stream "
-                "(1..4 puts, keys 0..255 B, values 0..300 B, 70 kB in thorough), each reopened r / a+put / r by the real "
+    rep.rule = ("crash images: every effect the session has on its file (write at a position / truncate) is logged through a proxy "
+                "around the file object; images = the file after any number of complete effects + any proper prefix of the next write "
+                "(for the unchanged code, which only appends: committed records followed by every byte-offset prefix of the write stream) "
+                "(1..4 puts, keys 0..255 B, values 0..300 B and 70 kB), each reopened r / a+put / r by the real "
                 "UKVFile and by the model; plus random histories with Crash ops; non-trivial = the cut falls strictly "
                 "inside a block; distinct by (session, offset)")
     rep.trusted += ["harness/ukv_common.py, harness/c03.py (crash images are produced by truncating the file the real "
@@ -55,7 +190,7 @@ def run(ctx, rep):
     ok, out, where = vlib.build_props(ctx, rep, "C03")
     work = ctx.sub("ukv")
     path = os.path.join(work, "t.ukv")
-    cases, meta = [], []
+    cases, meta, nonappend = [], [], []
     for si, (committed, puts) in enumerate(sessions(ctx, 400 if ctx.thorough else 30)):
         if os.path.exists(path):
             os.remove(path)
@@ -64,35 +199,49 @@ def run(ctx, rep):
             f.put(k, v.b)
         f.close()
         base = os.path.getsize(path)
-        f = UKVFile(path, "a")
-        for k, v in puts:
-            f.put(k, v.b)
-        f.close()
-        data = open(path, "rb").read()
-        offs = list(range(base, len(data) + 1))
-        if len(offs) > 400:       # large values: every offset in headers/keys, strided inside values, boundaries +-2
-            keep, pos = set(), base
+        base_img = open(path, "rb").read()
+        log = []
+        with record_effects(log):
+            f = UKVFile(path, "a")
             for k, v in puts:
-                keep.update(range(pos, pos + 5 + len(k) + 3)); pos += 5 + len(k) + len(v.b)
-                keep.update(range(pos - 2, pos + 3))
-            keep.update(range(base, len(data) + 1, 997))
-            offs = sorted(o for o in keep if base <= o <= len(data))
+                f.put(k, v.b)
+            f.close()
+        data = open(path, "rb").read()
+        ao, bad_e = append_only(base, log)
+        rep.oblig(f"session{si}:effect-log-append-only", ao)
+        fin = base_img
+        for e in log:
+            fin = apply_effect(fin, e)
+        if not log or fin != data:
+            raise RuntimeError("harness: the effect log does not reproduce the file the session wrote "
+                               "(UKVFile no longer opens its file through pathlib.Path.open?)")
+        if not ao:
+            nonappend.append((si, bad_e[:2]))
+        total = sum(len(e[2]) for e in log if e[0] == "w")
+        images = crash_images(base_img, log, total <= 400)
         ends, pos = [], base
         for k, v in puts:
             pos += 5 + len(k) + len(v.b); ends.append(pos)
-        for n in offs:
-            reuse = (n + si) % 2 == 1
-            d = U.drive(path + ".img", probe_ops(committed, puts, reuse), nh=3, init_bytes=data[:n])
-            cases.append(U.case_coq(d, 3)); meta.append((si, n))
+        intended = {k: v.b for k, v in puts}
+        for ii, (label, img) in enumerate(images):
+            n = len(img)
+            reuse = (ii + si) % 2 == 1
+            # what a reader of the crash image sees, judged against what the session meant to write
+            for sig, text in judge_image(path + ".probe", img, committed, puts):
+                rep.violate(sig, f"session {si}, crash after effect {label} (file of {n} bytes): {text}",
+                            {"kind": "image", "committed": [[k.hex(), v.seed, v.n] for k, v in committed],
+                             "puts": [[k.hex(), v.seed, v.n] for k, v in puts], "label": label, "h2": "cmt" if si % 2 else "", "reuse": reuse})
+            d = U.drive(path + ".img", probe_ops(committed, puts, reuse), nh=3, init_bytes=img)
+            cases.append(U.case_coq(d, 3)); meta.append((si, label))
             rep.count("probe:" + ("one-handle-reopened" if reuse else "three-handles"))
-            inside = n != base and n not in ends
-            rep.case(key=f"s{si}@{n}" if inside else None,
-                     sample={"session": [[k.hex()[:16], v.n] for k, v in puts], "offset": n - base, "results": d["results"][:6]} if (si, n - base) in ((0, 3), (1, 7)) else None)
+            inside = img != base_img and not (ao and n in ends)
+            rep.case(key=f"s{si}@{label}" if inside else None,
+                     sample={"session": [[k.hex()[:16], v.n] for k, v in puts], "image": label, "results": d["results"][:6]} if (si, ii) in ((0, 3), (1, 7)) else None)
             rep.count("cut:" + ("inside-block" if inside else "boundary"))
             for sig, text in d["oracle"]:
-                rep.violate(sig.replace("C02:", "C03:"), f"session {si} cut at +{n - base}: {text}",
+                rep.violate(sig.replace("C02:", "C03:"), f"session {si}, crash after effect {label}: {text}",
                             {"kind": "image", "committed": [[k.hex(), v.seed, v.n] for k, v in committed],
-                             "puts": [[k.hex(), v.seed, v.n] for k, v in puts], "offset": n - base, "h2": "cmt" if si % 2 else "", "reuse": reuse})
+                             "puts": [[k.hex(), v.seed, v.n] for k, v in puts], "label": label, "h2": "cmt" if si % 2 else "", "reuse": reuse})
     # random histories with crashes (second crash, handles reopened after a crash)
     import c02
     for r in range(2000 if ctx.thorough else 250):
@@ -104,6 +253,12 @@ def run(ctx, rep):
             rep.violate(sig.replace("C02:", "C03:"), text, {"kind": "history", "ops": [c02._ser(o) for o in h]})
     bad = vlib.run_shards(ctx, rep, "c03", U.HEADER, "check_case", cases, shard=300, case_type="case")
     found = bool(rep.violations)
+    if nonappend:
+        # the sessions no longer only append: the crash-image family the theorems quantify over (committed ++ prefix of the
+        # appended bytes) is not the family the code produces; the images of the real effect log were judged above
+        vlib.broken_obligation(rep, "effect-log-append-only",
+                               f"a writing session performed an effect that is not a write at the end of the file: {nonappend[:3]} "
+                               "(C03_crash_reopen quantifies over prefixes of an append-only stream)", found)
     if bad is None:
         vlib.broken_obligation(rep, "corr_c03", "a correspondence shard did not compile: " + str(rep.extra.get("shard_errors"))[-1500:], found)
     elif bad:
@@ -132,7 +287,26 @@ def replay(ctx, data):
         for k, v in puts:
             f.put(k, v.b)
         f.close()
-        img = open(path, "rb").read()[:base + data["offset"]]
+        if "label" in data:
+            os.remove(path)
+            f = UKVFile(path, "x", h2=data["h2"].encode())
+            for k, v in committed:
+                f.put(k, v.b)
+            f.close()
+            base_img = open(path, "rb").read()
+            log = []
+            with record_effects(log):
+                f = UKVFile(path, "a")
+                for k, v in puts:
+                    f.put(k, v.b)
+                f.close()
+            img = dict(crash_images(base_img, log, sum(len(e[2]) for e in log if e[0] == "w") <= 400))[data["label"]]
+            extra = judge_image(path + ".probe", img, committed, puts)
+        else:
+            img = open(path, "rb").read()[:base + data["offset"]]
+            extra = []
         d = U.drive(path + ".img", probe_ops(committed, puts, data.get("reuse", False)), nh=3, init_bytes=img)
+        print("ops:", d["ops"]); print("results:", d["results"])
+        return [vlib.Violation(s, t) for s, t in extra] + [vlib.Violation(s.replace("C02:", "C03:"), t) for s, t in d["oracle"]]
     print("ops:", d["ops"]); print("results:", d["results"])
     return [vlib.Violation(s.replace("C02:", "C03:"), t) for s, t in d["oracle"]]
